@@ -111,6 +111,13 @@ theorem C11_twin (P : List FunDecl) (e : Expr) (h : pureExpr (analyse genCfg P) 
     changesAny genCfg (analyse genCfg P) e = false :=
   C11_twin_general genCfg C11_tables_exact _ e h
 
+/-- A function whose body writes only its own locals and parameters has an empty `changes` set (visitFunction erases
+    both), so calls of it are `pureExpr` callees -- the twin "write goes to a local / by-value parameter instead". -/
+theorem C11_twin_local_writes (env : Env) (fd : FunDecl)
+    (h : ∀ s ∈ collectStmt genCfg.visit (collectWrites genCfg env) fd.body, s ∈ fd.locals ∨ s ∈ fd.params) :
+    (funInfo genCfg env fd).changes = [] :=
+  funInfo_changes_nil (by decide) (by decide) env fd h
+
 /-- satisfiable: reading `w` and calling a function that only writes its own local and its by-value parameter -/
 def demoPure : List FunDecl :=
   [ { name := 2, params := [5], refNonConst := [false], locals := [6],
